@@ -15,7 +15,7 @@
  *        path-substr substring that must occur in one of the path arguments ("" = any)
  *        nth         fire on the n-th matching call (1-based); 0 = every matching call; -n = from the n-th call on
  *        action      fail=<errno number> | killbefore | killafter | runbefore=<cmd> | runafter=<cmd>
- *   FSSHIM_EMUCLONE = 1 : ioctl(FICLONE) is emulated by copying the bytes (no reflink fs here)
+ *   FSSHIM_EMUCLONE = 1 : ioctl(FICLONE) is emulated by copying the bytes, after the kernel's own checks (no reflink fs here)
  *
  * Own code of the verification framework; not derived from the repository under test.
  */
@@ -693,9 +693,17 @@ int fcntl64(int fd, int cmd, ...) {
     return fcntl(fd, cmd, arg);
 }
 
+/* ioctl(dst, FICLONE, src) in the order of the kernel's checks (fs/ioctl.c ioctl_file_clone -> fs/remap_range.c vfs_clone_file_range ->
+ * generic_remap_file_range_prep): other file system -> EXDEV; a directory -> EISDIR; not a regular file -> EINVAL; empty source -> 0, nothing
+ * done; one inode (overlapping ranges) -> EINVAL; otherwise bytes [0, size(src)) of dst are replaced, dst grows if shorter and is NOT shrunk */
 static int emulate_clone(int dst, int src) {
-    struct stat st;
-    if (fstat(src, &st) < 0) return -1;
+    struct stat st, dt;
+    if (fstat(src, &st) < 0 || fstat(dst, &dt) < 0) { errno = EBADF; return -1; }
+    if (st.st_dev != dt.st_dev) { errno = EXDEV; return -1; }
+    if (S_ISDIR(st.st_mode) || S_ISDIR(dt.st_mode)) { errno = EISDIR; return -1; }
+    if (!S_ISREG(st.st_mode) || !S_ISREG(dt.st_mode)) { errno = EINVAL; return -1; }
+    if (st.st_size == 0) return 0;
+    if (st.st_ino == dt.st_ino) { errno = EINVAL; return -1; }
     char buf[65536];
     off_t off = 0;
     while (off < st.st_size) {
@@ -706,7 +714,6 @@ static int emulate_clone(int dst, int src) {
         if (w != r) return -1;
         off += r;
     }
-    if (syscall(SYS_ftruncate, dst, off) < 0) return -1;
     return 0;
 }
 
